@@ -472,11 +472,10 @@ def main(tier):
         return r
     ext_layer.build, ext_layer.model_encode = build_cap, encode_cap
     try:
-        ext_layer.run_c03(run, rng, tier)
-        setdef_layer.run_c03(run, rng, tier)
-        primb_layer.run_c03(run, rng, tier)
         with ext_build_with_c03_commands():
             ext_layer.run_c03(run, rng, tier)
+        setdef_layer.run_c03(run, rng, tier)
+        primb_layer.run_c03(run, rng, tier)
     finally:
         ext_layer.build, ext_layer.model_encode = orig_build, orig_encode
     prima_layer.run_c03(run, rng, tier)
